@@ -214,6 +214,56 @@ func (c *Ctx) ViolationOf(prop, sig, what string, input any) {
 	c.violations = append(c.violations, violationWire{Prop: prop, Case: id, Sig: sig, What: what, Input: string(b)})
 }
 
+// RunIsolated executes the case id in a process of its own (the engine re-invoked with --only), so
+// that the case starts from cold process state, and merges what that process observed. It returns
+// false when this process IS such a child (or a replay): the caller then runs the case inline.
+func (c *Ctx) RunIsolated(id string) bool {
+	if c.only != "" {
+		return false
+	}
+	dir := os.Getenv("VERIF_SCRATCH")
+	f, err := os.CreateTemp(dir, "isolated-*.out")
+	if err != nil {
+		return false
+	}
+	out := f.Name()
+	f.Close()
+	defer os.Remove(out)
+	exe, err := os.Executable()
+	if err != nil {
+		return false
+	}
+	cmd := exec.Command(exe, "--only", c.Prop, c.Tier, strconv.FormatUint(c.Seed, 10), id, out)
+	var stderr bytes.Buffer
+	cmd.Stderr = &stderr
+	runErr := cmd.Run()
+	o, rerr := readOut(out)
+	if runErr != nil || rerr != nil {
+		tail := stderr.String()
+		if len(tail) > 3000 {
+			tail = tail[len(tail)-3000:]
+		}
+		c.Violation("fatal:isolated-case:"+fatalSig(tail), fmt.Sprintf("the case run in a process of its own died: %v ⏎ %s", runErr, tail), map[string]any{"case": id})
+		return true
+	}
+	c.mu.Lock()
+	defer c.mu.Unlock()
+	c.evals += o.Evals
+	for k, v := range o.Counters {
+		c.counters[k] += v
+	}
+	for _, h := range o.Distinct {
+		c.distinct[h] = struct{}{}
+	}
+	for _, v := range o.Violations {
+		c.sigSeen[v.Sig]++
+		if c.sigSeen[v.Sig] <= 3 && len(c.violations) < 200 {
+			c.violations = append(c.violations, v)
+		}
+	}
+	return true
+}
+
 // Guard runs f, converting a panic into a violation whose signature names the innermost
 // repository function on the panicking stack. It reports whether f returned normally.
 func (c *Ctx) Guard(site string, input func() any, f func()) (ok bool) {
